@@ -3,7 +3,7 @@ list of the extra loop, fingerprint (cut, text source), message text source, log
 constants.  Everything else of the event's shape is anchored (AnchorError when it moves)."""
 import re
 from .common import rd, need, fn_body, strip_comments, AnchorError, HDR
-from .json import coq_str, QTMSG
+from .json import coq_str, QTMSG, inline_single_use_consts
 
 SLOT = {'tags': 'STag', 'osContext': 'SOs', 'deviceContext': 'SDevice'}
 
@@ -113,6 +113,7 @@ def generate():
     need(re.search(r'SimplePipeline &SimplePipeline::formatToSentry\(const QString &sdkName, const QString &sdkVersion\)', sp),
          'SimplePipeline::formatToSentry(const QString &sdkName, const QString &sdkVersion)')
     fb = re.sub(r'\s+', ' ', fn_body(sp, 'SimplePipeline::formatToSentry')).strip()
+    fb = inline_single_use_consts(fb).strip()   # `const auto f = SentryFormatterPtr::create(...); append(f);` is the same body (a `static` one is not: it stays unrecognised)
     fm2 = re.fullmatch(r'append\(SentryFormatterPtr::create\(([^()]*)\)\); return \*this;', fb)
     if fm2:
         fargs = [a.strip() for a in fm2.group(1).split(',')] if fm2.group(1).strip() else []
